@@ -21,7 +21,8 @@ for d in sorted((V / "seeded").glob("*")) if (V / "seeded").exists() else []:
         c = m.get("confirmation", {})
         seeded.setdefault(m["property"], []).append(
             f"`seeded/{d.name}` ({m.get('summary','')[:110]}; needs: {m.get('needs','')[:110]}) → "
-            + ("caught by quick" if c.get("check_quick", {}).get("exit") == 1 else
+            + ("MISSED at first → check strengthened → caught by quick" if m.get("first_run_missed") else
+               "caught by quick" if c.get("check_quick", {}).get("exit") == 1 else
                "caught by thorough" if c.get("check_thorough", {}).get("exit") == 1 else "MISSED"))
     except Exception as e:
         pass
